@@ -97,6 +97,7 @@ type Session struct {
 	C               chan Notification // channel for online & offline notifications
 	closeChan       chan bool         // channel to end all go routines
 	closed          bool              // indicate the session is closed
+	closeMutex      sync.RWMutex      // guards closed and the closing of C against senders
 	ipHeartBeat     uint32            // ipHeartBeat is set to 1 when we receive an IP packet
 }
 
@@ -232,12 +233,15 @@ func (config Config) NewSession(nic string) (session *Session, err error) {
 // Close stop all session goroutines and close notification channel and the underlaying raw connection.
 // The session is no longer valid after calling Close().
 func (h *Session) Close() {
+	h.closeMutex.Lock()
 	if h.closed {
+		h.closeMutex.Unlock()
 		return
 	}
 	h.closed = true
 	close(h.closeChan)
 	close(h.C)
+	h.closeMutex.Unlock()
 	h.Conn.Close()
 	time.Sleep(time.Second) // give time for goroutines to end
 }
@@ -269,7 +273,10 @@ func (h *Session) ReadFrom(b []byte) (int, net.Addr, error) {
 			}
 			continue
 		}
-		if h.closed {
+		h.closeMutex.RLock()
+		closed := h.closed
+		h.closeMutex.RUnlock()
+		if closed {
 			return n, addr, ErrHandlerClosed
 		}
 		return n, addr, err
